@@ -224,7 +224,8 @@ def run(tier):
     chk = vlib.Check(PID, tier, 'exploration')
     exe = exe_()
     measure = os.environ.get('VERIF_C06_MEASURE') == '1'
-    budget = float(os.environ.get('VERIF_C06_BUDGET', (25 * 60 - 150) if tier == 'thorough' else 170))
+    budget = float(os.environ.get('VERIF_C06_BUDGET', (25 * 60 - 180) if tier == 'thorough' else 200))   # seconds of enumeration, counted after the build
+    t_enum = time.time()
     # enumeration order: batches = one (length index, class[, rate]) slice over all configurations; only complete batches are run,
     # the deadline is tested between batches (thorough splits by rate so that no batch is long)
     members = []
@@ -276,7 +277,7 @@ def run(tier):
     peaks = []
     failing = []
     for bname, batch in members:
-        if time.time() - chk.t0 > budget:
+        if time.time() - t_enum > budget:
             cut.append(bname)
             continue
         if vlib.SEED:
@@ -436,13 +437,17 @@ def run(tier):
         'input and output are compared over the decoded range (the exact sample count is property C04)']
     if not measure:
         chk.guard(table_ok, 'SNR floor table present and non-decreasing in q for every (class, mode)')
-    chk.guard(stats['lag_judged'] >= 1000 and (len(stats['lag_judged_by_class']) >= 4 or cut), 'alignment judged on >=1000 members from >=4 signal classes (fewer classes only when the deadline cut the run), each judged channel having a unique input autocorrelation peak (peak/second-peak >= %g)' % UNIQUE)
-    chk.guard(stats['id_ge3ch'] >= 200 and stats['id_coupled_stereo'] >= 50 and stats['id_coupled_51'] >= 10, 'channel identity judged on >=200 members with >=3 channels, >=50 coupled-stereo members and >=10 coupled 5.1 members')
+    # coverage-count guards describe the complete enumeration; a run cut by its deadline (exhaustive:false, batches_not_run listed) is only
+    # required to have finished the batches it reports, starting with the LFE-content slice
+    if not cut:
+        chk.guard(stats['lag_judged'] >= 1000 and len(stats['lag_judged_by_class']) >= 4, 'alignment judged on >=1000 members from >=4 signal classes, each judged channel having a unique input autocorrelation peak (peak/second-peak >= %g)' % UNIQUE)
+        chk.guard(stats['id_ge3ch'] >= 200 and stats['id_coupled_stereo'] >= 50 and stats['id_coupled_51'] >= 10, 'channel identity judged on >=200 members with >=3 channels, >=50 coupled-stereo members and >=10 coupled 5.1 members')
+        chk.guard(stats['long_to_short_members'] >= 100, '>=100 members contained a long->short block transition')
+        chk.guard(len(passed) >= 100 or nviol > 0, 'at least 100 distinct configurations passed')
+    chk.guard('lfe' in done_batches, 'the LFE-content slice was completed')
     chk.guard(stats['max_input_crosscorr'] < 0.5, 'input channels carry distinct content (max normalised cross-correlation between input channels < 0.5)')
     chk.guard(stats['lfe_content_members_negative_q_blocks_512_4096'] >= 32, '>=32 LFE-content members ran at negative quality with block sizes 512/4096 (LFE residue beyond the LFE floor range) and had their LFE peak judged')
-    chk.guard(stats['long_to_short_members'] >= 100, '>=100 members contained a long->short block transition')
     chk.guard(all(k[0] == 96000 and k[1] == 'a' for k in skipped), 'only ABR at 96000 Hz was refused by the encoder set-up')
-    chk.guard(len(passed) >= 100 or nviol > 0, 'at least 100 distinct configurations passed')
     return chk.finish()
 
 
